@@ -119,7 +119,11 @@ class FrameOps:
 
     def _bad_key(self, ch, e):
         m = e.model.columns
-        kind = ch.weighted([('dup', 4 if m.raw else 0), ('unhashable', 2), ('reentry', 3 if (m.hier and m.raw) else 0)])
+        kind = ch.weighted([('dup', 4 if m.raw else 0), ('unhashable', 2), ('reentry', 3 if (m.hier and m.raw) else 0), ('odd', 1.5 if m.unit is None else 0)])
+        if kind == 'odd':
+            if m.hier:
+                return 'AzQx'[:m.depth]  # a plain string as long as the depth is not a tuple of labels
+            return ch.choice([{'range': [0, 2, 1]}, {'range': [0, 3, 1]}, {'fset': [1, 2]}, {'nptype': 'ndarray'}, {'sfcls': 'Series'}])
         if kind == 'dup':
             return enc(ch.choice(m.raw))
         if kind == 'reentry':
@@ -403,6 +407,8 @@ class FrameOps:
             if norm(ck) in m.labels():
                 return 'must', 'duplicate-key'
             return 'accept', 'new-date-key'
+        if isinstance(key, (range, frozenset, type)):
+            return 'may', 'odd-hashable-key'
         if norm(key) in m.labels():
             return 'must', 'duplicate-key'
         return 'accept', 'new-key'
@@ -508,6 +514,7 @@ class FrameOps:
             del self.ents[e.h]
             return 'accepted-bad'
         if exp == 'may':
+            self._readable_after_accept(e, site, cls, labels=new_keys)
             del self.ents[e.h]
             return 'accepted-unmodelled'
         for k, c in zip(new_keys, new_cells):
